@@ -27,11 +27,14 @@ def prepare(ctx):
 	stride = 1  # the complete (FN, delta) space takes ~5 s in C: both tiers cover it
 	off = ctx.seed % stride
 	script = "W\nD %d %d\nT %s\n" % (stride, off, os.path.join(bd.path, "tab.bin"))
-	rc, out, err = cbuild.run(binary, script.encode(), timeout = 900)
+	rc, out, err = cbuild.run_patient(binary, script.encode(), timeout = 250)
 	txt = out.decode(errors = "replace")
 	if rc != 0:
 		rep = cbuild.sanitizer_summary(err)
-		if rep:
+		if rc == "hang":
+			ctx.violation("c-walk", {"note": "the walk over the hyperframe normally takes a few seconds", "stdout": txt[-500:]},
+				what = "GSM time arithmetic in C does not terminate: the walk did not finish within 250 s, twice")
+		elif rep:
 			ctx.violation("c-walk", {"stderr": err.decode(errors = "replace")[-2000:], "stdout": txt[-500:]},
 				what = "sanitizer report / crash while stepping GSM time: %s" % rep)
 		else:
